@@ -241,6 +241,16 @@ func compare(sc *core.Scenario, ref, f *core.Result, k int) *core.Violation {
 			Expected: "nothing is evaluated after the stop flag is raised: a node entered while the flag is up ends with 'stopped'",
 			Observed: o, Match: map[string]string{"oracle": "O2-node", "at": kind}}
 	}
+	if f.TestsCompleted >= 0 && f.TestsCounted != f.TestsCompleted {
+		// "only the summary of the tests run so far may follow": the count it reports is the number
+		// of test calls that ran to their end before the stop (seen by the monitor around eval)
+		o := obs()
+		o["tests_that_ran_to_their_end"] = f.TestsCompleted
+		o["tests_counted_by_the_summary"] = f.TestsCounted
+		return &core.Violation{Oracle: "O2-summary-of-tests-run-so-far", Signature: "O2:summary-count:" + kind,
+			Expected: "after a stop only the summary of the tests run so far may follow: it counts the test calls that ran to their end, no unfinished one",
+			Observed: o, Match: map[string]string{"oracle": "O2-summary", "at": kind}}
+	}
 	// O1 stopped result
 	if f.EndClass != core.EndStopped {
 		return &core.Violation{Oracle: "O1-stopped-result", Signature: "O1:" + kind + ":" + f.EndClass,
